@@ -15,15 +15,15 @@ import (
 )
 
 const smtPrelude = `; govc prelude
-(declare-datatypes ((Path 0)) (((pnil) (pfld (p_base Path) (p_f Int)) (pelm (p_ebase Path) (p_i Int)))))
+(declare-datatypes ((Path 0)) (((pnil) (pfld (pth_base Path) (pth_f Int)) (pelm (pth_ebase Path) (pth_i Int)))))
 (declare-datatypes ((Loc 0)) (((mkloc (l_obj Int) (l_path Path)))))
 (define-fun nilloc () Loc (mkloc 0 pnil))
 (define-fun fld ((l Loc) (f Int)) Loc (mkloc (l_obj l) (pfld (l_path l) f)))
 (define-fun elm ((l Loc) (i Int)) Loc (mkloc (l_obj l) (pelm (l_path l) i)))
 (define-fun pathid ((p Path)) Path p)
-(define-fun pbase1 ((p Path)) Path (p_base p))
-(define-fun pbase2 ((p Path)) Path (p_base (p_base p)))
-(define-fun pbase3 ((p Path)) Path (p_base (p_base (p_base p))))
+(define-fun pbase1 ((p Path)) Path (pth_base p))
+(define-fun pbase2 ((p Path)) Path (pth_base (pth_base p)))
+(define-fun pbase3 ((p Path)) Path (pth_base (pth_base (pth_base p))))
 (declare-datatypes ((Slice 0)) (((mkslice (s_arr Loc) (s_off Int) (s_len Int) (s_cap Int)))))
 (define-fun nilslice () Slice (mkslice nilloc 0 0 0))
 (declare-datatypes ((Iface 0)) (((mkiface (i_typ Int) (i_val Loc)))))
